@@ -90,9 +90,19 @@ func addCustomAnalysis(im *mapping.IndexMappingImpl, analyzers, parsers []string
 			"type": "truncate_token", "length": float64(3 + variant%3)}); err != nil {
 			return err
 		}
+		// numeric options as a Go API user writes them (ints); after the JSON round
+		// trip they arrive as float64 and must mean the same
+		if err := im.AddCustomTokenFilter("clen", map[string]interface{}{
+			"type": "length", "min": 2 + variant%2, "max": float64(8)}); err != nil {
+			return err
+		}
+		if err := im.AddCustomTokenFilter("cshingle", map[string]interface{}{
+			"type": "shingle", "min": float64(2), "max": float64(2 + variant%2), "output_original": true}); err != nil {
+			return err
+		}
 		if err := im.AddCustomAnalyzer("custA", map[string]interface{}{
 			"type": "custom", "char_filters": []interface{}{"cchar"}, "tokenizer": "ctok",
-			"token_filters": []interface{}{"cstopf", "ctrunc"}}); err != nil {
+			"token_filters": []interface{}{"cstopf", "clen", "ctrunc", "cshingle"}}); err != nil {
 			return err
 		}
 	}
